@@ -195,6 +195,14 @@ fn crafted() -> Vec<(&'static str, Vec<u8>)> {
         for s in ["Os", "u", "b", "c", "s", "OiA"] {
             for t in ["{}1{}", "{}[{}", "{}nul{}l", "{}\"ab\"{}", "{}{{}", "{}tru{}", "{}\"a{}b\"", "{}\"\\{}\""] { v.push((s, t.replace("{}", nl).into_bytes())); }
         }
+        // numbers that have left the 64-bit fast path (20+ integer digits: parse_long_integer / parse_long_decimal / parse_long_exponent under
+        // float_roundtrip), cut short after `.` / `e` / `e+`, the next byte being a newline variant, a closer or a letter: f64, f32, Value, IgnoredAny targets
+        for s in ["d", "g", "a", "x", "Qd"] {
+            for t in ["[18446744073709551616.{}x]", "[18446744073709551616.{}]", "[1,{} 99999999999999999999.e5,{} 3]", "[{}-123456789012345678901234567890e{}]", "[18446744073709551616e+{}]",
+                      "[18446744073709551616.5e{},1]", "[{}18446744073709551616.{}", "[12345678901234567890123.{}", "[1.{}]", "[18446744073709551615.{}x]"] {
+                v.push((s, t.replace("{}", nl).into_bytes()));
+            }
+        }
         // Value / IgnoredAny: the classical sites
         for s in ["a", "x"] {
             for t in ["[1,{}]", "[1{}2]", "{\"a\"{}1}", "{\"a\":1{},}", "{{}\"a\":1,{}}", "[{}", "{}", "1{}x", "\"a{}b\"", "\"a\\{}\"", "[1,2]{}x", "{}-{}", "1.{}", "1e{}", "nul{}", "[1e999{},2]", "\"\\ud800{}\"", "\"\\u00{}e9\"", "[\"\u{e9}\u{e9}\",{}\"\u{1f600}\"{}x]"] {
